@@ -502,3 +502,28 @@ func backSliceDeep(p *Prog, v ssa.Value, depth int) map[ssa.Value]bool {
 	walk(v, depth)
 	return out
 }
+
+// confinedToGuardedGoroutine: fn runs only as the body of goroutines whose go statement executes where pred holds
+// (see guardedDeep), or is only called from functions of which that is true. Nothing else can run fn: it is closed
+// (see useSitesOf).
+func confinedToGuardedGoroutine(p *Prog, fn *ssa.Function, pred func(Guard) bool, depth int) bool {
+	sites, closed := useSitesOf(p, fn)
+	if !closed || len(sites) == 0 {
+		return false
+	}
+	for _, s := range sites {
+		switch s.(type) {
+		case *ssa.Go:
+			if !guardedDeep(p, s, pred, 2) {
+				return false
+			}
+		case *ssa.Call:
+			if depth <= 0 || !confinedToGuardedGoroutine(p, s.Parent(), pred, depth-1) {
+				return false
+			}
+		default:
+			return false
+		}
+	}
+	return true
+}
